@@ -56,7 +56,7 @@ def _stat_var(gate, ctx):
 
 def _member_of(node, var, field):
     s = node.strip()
-    return s.k == "MemberExpr" and s.j.get("member") == field and render(s.children[0]) == var
+    return s.k == "MemberExpr" and s.j.get("member") == field and render(s) in ("%s.%s" % (var, field), "%s->%s" % (var, field))
 
 
 def _is_flag(lit, flag):
